@@ -30,6 +30,11 @@ LineOk(r) ==
     [] r.op = "genmid" -> r.rc = 0 /\ r.det /\ r.out = GenMid(r.m0, r.id)
     [] r.op = "genmi" -> LET g == GenMi(r.m0, r.tape) IN
                            IF g[1] THEN r.rc = 0 /\ r.out = g[2] ELSE r.rc # 0
+    \* an invalid common key (reducible polynomial): an error, and the specification agrees that it is invalid.
+    \* genmid may by chance still find a degree-l minimal polynomial over a reducible f0: only genmi's documented
+    \* ERR_BAD_PUBKEY / ERR_BAD_ANG outcome is demanded, genmid must just answer
+    [] r.op = "genmi_badm0" -> ~ValM(r.m0) /\ r.rc # 0
+    [] r.op = "genmid_badm0" -> ~ValM(r.m0)
     [] r.op = "valm" -> (r.rc = 0) = ValM(r.m)
     [] OTHER -> FALSE
 
